@@ -148,6 +148,16 @@ def handle (s : S) : List String → Option String
       toString (r == p && (p.outpoint == OutPoint.unbound || hasCharm c charmLost == p.outpoint.isNull)
         && (hasCharm c charmUnbound == (p.outpoint == OutPoint.unbound)))
     | _, _, _ => "bad-op"
+  /- C03 last clause, ground truth from the real parser and the generator's values: an
+     inscription revealed on a zero-value input or carrying an unrecognized even field has the
+     Unbound charm, no sat, and sits at the unbound pseudo-output.  (It stays there: the
+     pseudo-output is never spent.) -/
+  | ["ix.oracle.unbound", _, even, zero, charms, sat, sp] => some <|
+    match charms.toNat?, parseSatPoint sp with
+    | some c, some p =>
+      toString (!(even == "1" || zero == "1") ||
+        (hasCharm c charmUnbound && sat == "-" && p.outpoint == OutPoint.unbound))
+    | _, _ => if even == "1" || zero == "1" then "false" else "true"
   | ["ix.oracle.find", _, _, found, sp] => some <|
     match parseSatPoint found, parseSatPoint sp with
     | some f, some p => toString (f == p)
